@@ -22,16 +22,21 @@ pub struct Inj {
 
 const FORM: &[u8] = b"application/x-www-form-urlencoded";
 
+/// The credential so far (an earlier injector's, else the correct one) with one more change: defects injected one after
+/// another all survive into the request (a wrong region *and* a sixth part, two wrong scope components …).
 fn cred(b: &Build, f: impl Fn(&mut Vec<String>)) -> String {
-    let mut parts = vec![
-        b.l.access_key.clone(),
-        b.l.t.yyyymmdd(),
-        b.cfg.region.clone(),
-        b.cfg.service.clone(),
-        "aws4_request".to_string(),
-    ];
+    let mut parts: Vec<String> = match &b.ov.credential {
+        Some(c) => c.split('/').map(|p| p.to_string()).collect(),
+        None => vec![b.l.access_key.clone(), b.l.t.yyyymmdd(), b.cfg.region.clone(), b.cfg.service.clone(), "aws4_request".to_string()],
+    };
     f(&mut parts);
     parts.join("/")
+}
+
+fn set_part(p: &mut [String], i: usize, v: String) {
+    if let Some(slot) = p.get_mut(i) {
+        *slot = v;
+    }
 }
 
 pub const INJECTORS: &[Inj] = &[
@@ -361,9 +366,13 @@ pub const INJECTORS: &[Inj] = &[
                     p.truncate(1);
                 }
                 3 => {
-                    p.remove(2);
+                    if p.len() > 2 {
+                        p.remove(2);
+                    } else {
+                        p.push("y".into());
+                    }
                 }
-                _ => p.insert(1, "x".into()),
+                _ => p.insert(1.min(p.len()), "x".into()),
             }));
             true
         },
@@ -377,7 +386,7 @@ pub const INJECTORS: &[Inj] = &[
             while x == cur {
                 x = r.pick(&crate::gen::REGIONS).to_string();
             }
-            b.ov.credential = Some(cred(b, |p| p[2] = x.clone()));
+            b.ov.credential = Some(cred(b, |p| set_part(p, 2, x.clone())));
             true
         },
     },
@@ -390,7 +399,7 @@ pub const INJECTORS: &[Inj] = &[
             while x == cur {
                 x = r.pick(&crate::gen::SERVICES).to_string();
             }
-            b.ov.credential = Some(cred(b, |p| p[3] = x.clone()));
+            b.ov.credential = Some(cred(b, |p| set_part(p, 3, x.clone())));
             true
         },
     },
@@ -399,7 +408,7 @@ pub const INJECTORS: &[Inj] = &[
         stage: Stage::Scope,
         apply: |b, r| {
             let x = r.pick(&["aws4_reques", "aws4_request2", "AWS4_REQUEST", "aws3_request", ""]).to_string();
-            b.ov.credential = Some(cred(b, |p| p[4] = x.clone()));
+            b.ov.credential = Some(cred(b, |p| set_part(p, 4, x.clone())));
             true
         },
     },
@@ -413,7 +422,7 @@ pub const INJECTORS: &[Inj] = &[
                 2 => "2015083".to_string(),
                 _ => format!("{}0", b.l.t.yyyymmdd()),
             };
-            b.ov.credential = Some(cred(b, |p| p[1] = x.clone()));
+            b.ov.credential = Some(cred(b, |p| set_part(p, 1, x.clone())));
             true
         },
     },
